@@ -12,7 +12,9 @@ SYM = {"a": b"a", "sp": b" ", "tab": b"\t", "nl": b"\n", "sq": b"'", "dq": b'"',
        "c01": b"\x01", "del": b"\x7f", "zdot": "ż".encode(), "fffd": "\ufffd".encode(), "xff": b"\xff", "smalltilde": "\u02dc".encode(), "excl": b"!", "semi": b";",
        "nbsp": "\u00a0".encode(), "ideosp": "\u3000".encode(),
        "pipe": b"|", "amp": b"&", "lt": b"<", "gt": b">", "lp": b"(", "rp": b")", "bq": b"`", "qm": b"?", "lb": b"[", "rb": b"]",
-       "lbrace": b"{", "rbrace": b"}", "plus": b"+", "pct": b"%"}
+       "lbrace": b"{", "rbrace": b"}", "plus": b"+", "pct": b"%", "comma": b",", "dot": b".", "one": b"1",
+       "trunc4": b"\xf0\x9f\x98", "trunc3": b"\xe2\x82"}
+BRACE = ["lbrace", "rbrace", "comma", "dot", "a", "one"]          # BraceSyms of MC_ShellWords.tla
 ORDER = sorted(SYM)
 
 
@@ -60,17 +62,32 @@ def main(tier):
                        "arguments are non-empty and contain no NUL"]
     cfg = os.path.join(lib.BUILD, "MC_ShellWords_run.cfg")
     with open(cfg, "w") as f:
-        f.write(f"CONSTANT MaxLen = {4 if thorough else 3}\nSPECIFICATION Spec\nINVARIANT QuoteIsLossless\nCHECK_DEADLOCK FALSE\n")
+        f.write(f"CONSTANT MaxLen = {4 if thorough else 3}\nCONSTANT Alphabet <- Syms\nSPECIFICATION Spec\nINVARIANT QuoteIsLossless\nCHECK_DEADLOCK FALSE\n")
     res = lib.run_tlc("MC_ShellWords.tla", cfg, workers=8, timeout=1500)
-    chk.add_tlc("MC_ShellWords(QuoteIsLossless)", res)
+    chk.add_tlc("MC_ShellWords(QuoteIsLossless, all symbols)", res)
     if res.violation:
         w = lib.re.findall(r'^w = (<<.*>>)$', res.output, lib.re.M)
         chk.violation(f"C17/model word={w[-1] if w else '?'}", "ShellWords.tla: the quoting style chosen by `quote` is not lossless for this word under bash's rules", {"tlc": res.output[-1500:]})
+    # brace expansion needs longer words ({a..a}, {1,a}): every word of up to 6 (7) symbols over the brace material
+    blen = 7 if thorough else 6
+    for name, extra, want in (("brace", "", None), ("brace_nobrace", "CONSTANT CodeSpecial <- NoBraceSpecial\n", "QuoteIsLossless")):
+        with open(cfg, "w") as f:
+            f.write(f"CONSTANT MaxLen = {blen}\nCONSTANT Alphabet <- BraceSyms\n{extra}SPECIFICATION Spec\nINVARIANT QuoteIsLossless\nCHECK_DEADLOCK FALSE\n")
+        res = lib.run_tlc("MC_ShellWords.tla", cfg, workers=8, timeout=1500)
+        chk.add_tlc(f"MC_ShellWords(QuoteIsLossless, brace material, length <= {blen}" + (", braces not special to the code: must be refuted)" if want else ")"), res)
+        if want and res.violation != want:
+            raise lib.ToolError(f"vacuity: ShellWords.tla does not refute a `quote` that leaves braces bare (got {res.violation})")
+        if not want and res.violation:
+            w = lib.re.findall(r'^w = (<<.*>>)$', res.output, lib.re.M)
+            chk.violation(f"C17/model word={w[-1] if w else '?'}", "ShellWords.tla: the quoting style chosen by `quote` is not lossless for this word under bash's rules", {"tlc": res.output[-1500:]})
     lib.build_all()
     n = 4 if thorough else 3
     lists = []
     for k in range(1, n + 1):
         for w in itertools.product(ORDER, repeat=k):
+            lists.append([b"".join(SYM[s] for s in w)])
+    for k in range(n + 1, blen + 1):
+        for w in itertools.product(BRACE, repeat=k):
             lists.append([b"".join(SYM[s] for s in w)])
     sub = ["a", "sp", "sq", "bs", "nl", "zdot", "xff", "tilde"]
     for k in (2, 3):
@@ -110,7 +127,7 @@ def main(tier):
         chk.cov["evaluations"] = len(lists)
         chk.cov["traces_validated_against_impl"] = len(lists)
         chk.cov["distinct_nontrivial"] = nontrivial
-        chk.cov["rule"] = (f"all words of length <= {n} over the 20-symbol alphabet of ShellWords.tla, all lists of 2-3 words over an 8-symbol sub-alphabet, seeded random long byte strings; "
+        chk.cov["rule"] = (f"all words of length <= {n} over the {len(SYM)}-symbol alphabet of ShellWords.tla, all words of length <= {blen} over the brace material {{ }} , . a 1, all lists of 2-3 words over an 8-symbol sub-alphabet, seeded random long byte strings; "
                            "each goes through the real join -> split and through real bash; non-trivial = the printed form differs from the raw bytes (quoting was needed)")
         chk.sample({"args": [w.hex() for w in lists[len(lists) // 3]], "printed": bytes.fromhex(outs[len(lists) // 3].get("line", "")).decode("utf-8", "replace")})
     finally:
